@@ -173,6 +173,9 @@ def norm(s):
     return re.sub(r"\s+", "", s)
 
 
+QUALS = ("pub", "const", "unsafe", "async", "extern", "default",
+         # Verus function modes (never precede `fn` in plain Rust)
+         "open", "closed", "spec", "proof", "exec", "broadcast", "axiom", "uninterp", "tracked", "ghost")
 ITEM_KW = ("fn", "struct", "enum", "trait", "impl", "mod", "const", "static", "type", "union")
 
 
@@ -228,7 +231,7 @@ def _item_at(src, st, i):
     first = i
     while j >= 0:
         t = st[j]
-        if t.kind == "ident" and t.text in ("pub", "const", "unsafe", "async", "extern", "default"):
+        if t.kind == "ident" and t.text in QUALS:
             quals.insert(0, t.text)
             first = j
             j -= 1
@@ -298,12 +301,12 @@ def _item_at(src, st, i):
             return Item(src, kw, name, st[first].start, st[m].end, st[i].start, None, None, quals)
         close = match_close(st, m)
         return Item(src, kw, name, st[first].start, st[close].end, st[i].start, st[m].start, st[close].start, quals)
-    # fn / struct / enum / trait / union: skip generics, params, return type, where ...
+    # fn / struct / enum / trait / union: skip generics (only directly after the name), params,
+    # return type, where / spec clauses ... up to the first '{' or ';' at bracket depth 0
+    if m < len(st) and st[m].text == "<":
+        m = _angle_skip(st, m)
     while m < len(st):
         t = st[m]
-        if t.text == "<":
-            m = _angle_skip(st, m)
-            continue
         if t.text in ("(", "["):
             m2 = match_close(st, m)
             m = m2 + 1
